@@ -725,6 +725,9 @@ var corpus = []string{
 	`m={9223372036854775808.0:"big", 1:"one", 9223372036854775807:"max"}; for kv=m{print(kv.value,"")}; first(m).value`,
 	`[(-9223372036854775807-1) >= -9223372036854775808.0, (-9223372036854775807-1) > -9223372036854775808.0, -9223372036854777856.0 < (-9223372036854775807-1), 9223372036854774784.0 < 9223372036854775807, 9223372036854777856.0 > 9223372036854775807]`,
 	`[9007199254740993 > 9007199254740992.0, 9007199254740993 == 9007199254740992.0, 9007199254740993 < 9007199254740994.0, [9007199254740993] <= [9007199254740992.0], -9007199254740993 < -9007199254740992.0]`,
+	`for c = "a\xffb" { print(len(c)) }`, `s="\xffz"; println(len(first(s)), len(rest(s)))`, `rest("a\xffb")`, `rest("\xc3\xa9")`,
+	`for c="\xf0\x9f\x98\x80\xed\xa0\x80\xc0\xafz\xe2\x82"{print(len(c),"")}`, `[rest("\xf4\x90\x80\x80"), first("\xe0\x9f\xbf"), first("\xe2\x82\xacx"), rest("\xe2\x82z")]`,
+	`print(["\x80a\xc3"])`,
 	`sum5=func(a,b,c,d,e){a+b+c+d+e}; println(sum5(1,2,3,4,5)); println(sum5(1,2,3,4,6)); println(sum5(9,2,3,4,5))`,
 	`last=func(a,..){println("last of",a,..); ..[-1]}; [last(0,1,2,3,4), last(0,1,2,3,5), last(0,1,2,3,4)]`,
 	`func f8(a,b,c,d,e,f,g,h){println("in",a,e,h); [a,e,h]}; [f8(1,2,3,4,5,6,7,8), f8(1,2,3,4,5,6,7,9), f8(1,2,3,4,0,6,7,8)]`,
@@ -973,9 +976,9 @@ func runC01(c *Ctx) {
 		r.one(src, "factory", g.feats)
 	}
 	// int/float comparisons at the edges of int64 and of the 53-bit mantissa; variadic calls with nested last arguments
-	nedge := 2000
+	nedge := 2500
 	if c.Thorough() {
-		nedge = 16000
+		nedge = 20000
 	}
 	for i := 0; i < nedge; i++ {
 		g := newGen(c.R, false)
